@@ -718,8 +718,10 @@ fn gen_field(r: &mut Rng, f: Fs) -> (Vec<u8>, String) {
         B16 => { let b = gen_blob(r, 48); let t = format!("x{}", hex(&b)); (b, t) }
         B64 => { let b = gen_blob(r, 60); let t = format!("y{}", hex(&b)); (b, t) }
         Ip4 => { let b: Vec<u8> = (0..4).map(|_| match r.below(4) { 0 => 0, 1 => *r.pick(&[1u8, 9, 10, 99, 100, 199, 200, 255]), _ => r.u8() }).collect(); let t = format!("i{}", hex(&b)); (b, t) }
-        Ip6 => { let b = match r.below(3) { 0 => vec![0u8; 16], _ => r.bytes(16) }; let mut a = [0u8; 16]; a.copy_from_slice(&b);
-                 let t = format!("{}", std::net::Ipv6Addr::from(a)); (b, format!("w{}", hex(t.as_bytes()))) }
+        // the model writes the IPv6 text itself (show_ip6)
+        Ip6 => { let b = match r.below(4) { 0 => vec![0u8; 16], 1 => { let mut x = vec![0u8; 16]; x[10] = 0xff; x[11] = 0xff; x[12..].copy_from_slice(&r.bytes(4)); x }
+                     2 => { let mut x = r.bytes(16); for g in 0..8 { if r.chance(1, 2) { x[2 * g] = 0; x[2 * g + 1] = 0; } } x } _ => r.bytes(16) };
+                 let t = format!("j{}", hex(&b)); (b, t) }
         Rt => { let v = match r.below(3) { 0 => ext_u16(r), _ => ZONE_TYPES[r.below(ZONE_TYPES.len() as u64 - 1) as usize].0 };
                 (v.to_be_bytes().to_vec(), format!("m{}", v)) }
         Types => {
@@ -798,7 +800,8 @@ fn main() {
     let n_names = (if a.thorough { 12000 } else { 1500 }) * a.scale as usize;
     let fixed_names: Vec<Vec<u8>> = vec![vec![0], b"\x01@\x00".to_vec(), b"\x01$\x00".to_vec(), b"\x07$ORIGIN\x00".to_vec(), b"\x04$TTL\x00".to_vec(),
         b"\x02IN\x00".to_vec(), b"\x01A\x00".to_vec(), b"\x043600\x00".to_vec(), b"\x01#\x00".to_vec(), b"\x02\\#\x00".to_vec(), b"\x01[\x00".to_vec(),
-        b"\x01a\x00".to_vec(), b"\x08a;b\"c(d)\x03com\x00".to_vec(), b"\x01@\x01@\x00".to_vec(), b"\x01*\x01a\x00".to_vec()];
+        b"\x01a\x00".to_vec(), b"\x08a;b\"c(d)\x03com\x00".to_vec(), b"\x02\\a\x00".to_vec(), b"\x02(a\x00".to_vec(), b"\x02;a\x00".to_vec(),
+        b"\x02 a\x00".to_vec(), b"\x02\"a\x00".to_vec(), b"\x02.a\x00".to_vec(), b"\x02)a\x00".to_vec(), b"\x02\ta\x00".to_vec(), b"\x01@\x01@\x00".to_vec(), b"\x01*\x01a\x00".to_vec()];
     for i in 0..n_names + fixed_names.len() {
         let w = if i < fixed_names.len() { fixed_names[i].clone() } else { gen_name(&mut r) };
         let name = Name::from_octets(Bytes::from(w.clone())).unwrap();
@@ -1016,13 +1019,65 @@ fn main() {
         }
     }
 
+
+    // ---- T2: IPv6 address text: Display against the model's show_ip6, and texts read back through AAAA
+    {
+        let n_ip6 = (if a.thorough { 8000 } else { 800 }) * a.scale as usize;
+        let mut addrs: Vec<[u8; 16]> = vec![[0; 16], { let mut x = [0u8; 16]; x[15] = 1; x }, { let mut x = [0u8; 16]; x[10] = 0xff; x[11] = 0xff; x[12] = 1; x[15] = 4; x },
+            { let mut x = [0u8; 16]; x[12] = 1; x[15] = 4; x }, { let mut x = [0xffu8; 16]; x[0] = 0x20; x[1] = 1; x }, { let mut x = [0u8; 16]; x[0] = 1; x }];
+        for _ in 0..n_ip6 {
+            let mut x = [0u8; 16];
+            for g in 0..8 { let v: u16 = match r.below(5) { 0 | 1 => 0, 2 => r.below(16) as u16, 3 => 0xffff, _ => r.u16() }; x[2 * g] = (v >> 8) as u8; x[2 * g + 1] = v as u8; }
+            addrs.push(x);
+        }
+        for x in addrs {
+            let text = format!("{}", std::net::Ipv6Addr::from(x));
+            idx += 1;
+            if out.wants(idx) {
+                let c = format!("ip6show {}", hex(&x));
+                out.begin(&c);
+                out.case(&c, &hex(text.as_bytes()), x != [0u8; 16], "ip6_display");
+            }
+            // the writer's text and variants of it (upper case, leading zeros, expanded, a broken one)
+            let mut variants: Vec<Vec<u8>> = vec![text.clone().into_bytes(), text.to_uppercase().into_bytes()];
+            let full: Vec<String> = (0..8).map(|g| format!("{:04x}", ((x[2 * g] as u16) << 8) | x[2 * g + 1] as u16)).collect();
+            variants.push(full.join(":").into_bytes());
+            variants.push({ let mut v = full.clone(); v[r.below(8) as usize] = "12345".to_string(); v.join(":").into_bytes() });
+            variants.push(full[..7].join(":").into_bytes());
+            if r.chance(1, 4) { variants.push(format!("{}:", text).into_bytes()); variants.push(text.replace("::", ":::").into_bytes()); }
+            for v in variants {
+                idx += 1; if !out.wants(idx) { continue; }
+                let c = format!("ip6read {}", hex(&v));
+                out.begin(&c);
+                let mut line = b". 0 IN AAAA ".to_vec(); line.extend(&v); line.push(b'\n');
+                let obs = match read_text(&line, None) {
+                    Err(_) => "Panic".to_string(),
+                    Ok(Err(_)) => "Err".to_string(),
+                    Ok(Ok(rs)) if rs.len() == 1 => match rs[0].data() { ZoneRecordData::Aaaa(a6) => format!("Ok {}", hex(&a6.addr().octets())), _ => "Err".to_string() },
+                    Ok(Ok(_)) => "Err".to_string(),
+                };
+                out.case(&c, &obs, true, "ip6_read");
+            }
+        }
+    }
+
     // ---- T2: regular record types field by field (`rec`): the model renders the record with the
     //      schema T1 read off the type's ZonefileFmt / scan impls
     let n_rec = (if a.thorough { 400 } else { 40 }) * a.scale as usize;
-    for (rt, fs, static_comments) in REGULAR {
+    // IPSECKEY: the gateway field follows the gateway type (0 none ".", 1 IPv4, 2 IPv6, 3 name)
+    let ipseckey: [(u16, &[Fs], bool); 4] = [(45, &[U8, U8, U8, B64], false), (45, &[U8, U8, U8, Ip4, B64], false),
+        (45, &[U8, U8, U8, Ip6, B64], false), (45, &[U8, U8, U8, Name, B64], false)];
+    for (rt, fs, static_comments) in REGULAR.iter().chain(ipseckey.iter()) {
         for _ in 0..n_rec {
             let mut wire = Vec::new(); let mut toks = Vec::new();
             for f in fs.iter() { let (w, t) = gen_field(&mut r, *f); wire.extend(w); toks.push(t); }
+            if *rt == 45 {
+                // force the gateway type to the form generated; no gateway: the "." token
+                let gw = match fs.len() { 4 => 0u8, _ => match fs[3] { Ip4 => 1, Ip6 => 2, _ => 3 } };
+                wire[1] = gw; toks[1] = format!("u{}", gw);
+                if gw == 0 { toks.insert(3, "d".to_string()); }
+                if r.chance(1, 3) { wire[2] = 0; toks[2] = "u0".to_string(); }
+            }
             let owner = if r.chance(1, 2) { b"\x07example\x00".to_vec() } else { gen_name(&mut r) };
             let class = gen_class(&mut r); let ttl = ext_u32(&mut r);
             let rec = match make_record(&owner, class, ttl, *rt, &wire) { Some(x) => x, None => { out.count(&format!("unbuildable_rec_{}", type_name(*rt))); continue; } };
